@@ -41,6 +41,19 @@ def wire_width(fcp, t):
     raise TypeError(t)
 
 
+def known_defect_width(fcp, t):
+    """What the listed finding enum-width lays an enum leaf out on: 2^ceil(log2(packed size)) bits per enum (1 for a packed size of 1),
+    arrays of them element by element.  Any other width of an enum leaf is not that finding."""
+    from fcp.specs import type as T
+    import ref_wire
+    if type(t) is T.EnumType:
+        n = ref_wire.enum_width(own_lookup.enum(fcp, t.name))
+        return 1 if n <= 1 else 1 << (n - 1).bit_length()
+    if type(t) is T.ArrayType:
+        return t.size * known_defect_width(fcp, t.underlying_type)
+    return wire_width(fcp, t)
+
+
 def expected_names(fcp, sname, unroll, prefix=""):
     """The unique hierarchical leaf names the property promises, read off the schema: fields in ascending id, nested structs as
     <field>::, unrolled arrays as <field>_<i> (every dimension)."""
@@ -83,7 +96,7 @@ def check_tiling(fcp, im, pieces, unroll=None):
         except TypeError:
             return f"piece {p.name} has a type without wire width", known
         if p.bitlength != w:
-            if contains_enum(p.type):
+            if contains_enum(p.type) and p.bitlength == known_defect_width(fcp, p.type):
                 known = True
             else:
                 return f"piece {p.name} is {p.bitlength} bits wide, its type needs {w}", known
